@@ -104,6 +104,11 @@ def _inside_grid_with_n(main_domain, domain_a, domain_b, n, params, invert, devi
     number_inside = len(index_valid)
     if number_inside == n:
         return grid_a
+    if number_inside == 0:
+        # no grid point fits (happens for small n): use random points instead
+        return _inside_random_with_n(
+            main_domain, domain_a, domain_b, n, params, invert, device
+        )
     # if the grid does not fit, scale the number of points
     scaled_n = int(n**2 / number_inside)
     grid_a = domain_a.sample_grid(n=scaled_n, params=params, device=device)
@@ -236,6 +241,11 @@ def _boundary_grid_with_n(main_domain, domain_a, domain_b, n, params, device):
     sum_of_correct = a_correct + b_correct
     if sum_of_correct == n:
         return grid_a[on_bound_a,] | grid_b[on_bound_b,]
+    if sum_of_correct == 0:
+        # no grid point fits (happens for small n): use random points instead
+        return _boundary_random_with_n(
+            main_domain, domain_a, domain_b, n, params, device
+        )
     # scale the n so that more or fewer points are sampled and try again
     # to get a better grid. For the scaling we approximate the volume of the
     # the main domain.
